@@ -266,3 +266,17 @@ Proof.
   rewrite Hn, (firstn_app_len _ _ _ eq_refl).
   destruct (N.eqb_spec (crc32 p') (h_crc h)) as [E|_]; [congruence|]. reflexivity.
 Qed.
+
+(* ---- single-bit corruption of the payload (uses Proofs/CRC32.v) ---- *)
+Lemma differ_one_bit_length l1 l2 : differ_one_bit l1 l2 -> length l2 = length l1.
+Proof. intros (pre & post & b & k & -> & -> & _). rewrite !app_length. reflexivity. Qed.
+
+Lemma frame_payload_bit_flip_rejected_proved hb p p' rest h :
+  read_frame false (magic ++ hb ++ p ++ rest) = Delivered h p rest ->
+  length hb = hdr_len -> wf_bytes p -> differ_one_bit p p' ->
+  read_frame false (magic ++ hb ++ p' ++ rest) = Bad.
+Proof.
+  intros H Hl Hw Hd. eapply frame_payload_crc_rejected; eauto.
+  - apply differ_one_bit_length. exact Hd.
+  - intros E. symmetry in E. revert E. apply crc32_single_bit_detected; assumption.
+Qed.
